@@ -307,3 +307,25 @@ V("c17-reset-only-for-exception", "C17", DB, "        try:\n            yield\n 
 V("eq-proof-guard-plus-one", "C15", SM, "            if len(node_updates) <= branch_point:", "            if len(node_updates) < branch_point + 1:", expect="silent")
 V("eq-proof-bit-length", "C15", SM, "            for bit in reversed(range(self._branch_size)):\n                if path_diff & (1 << bit) > 0:\n                    branch_point = (self._branch_size - 1) - bit\n                    break\n", "            branch_point = self._branch_size - path_diff.bit_length()\n", expect="silent")
 V("c15-index-from-end", "C15", SM, "            self._branch[branch_point] = node_updates[branch_point]", "            self._branch[branch_point] = node_updates[branch_point - self._branch_size]", rule="EFF5")
+
+# --- extract-helper refactorings (new single-return helpers are inlined by the symbolic layer) -------------
+V("eq-extract-load-root", "C01", HX, "    def exists(self, key):\n        validate_is_bytes(key)\n", "    def _load_root(self):\n        return self.get_node(self.root_hash)\n\n    def exists(self, key):\n        validate_is_bytes(key)\n", expect="silent", props=ALLP,
+  edits=[(HX, "    def exists(self, key):\n        validate_is_bytes(key)\n", "    def _load_root(self):\n        return self.get_node(self.root_hash)\n\n    def exists(self, key):\n        validate_is_bytes(key)\n"),
+         (HX, "            root_node = self.get_node(self.root_hash)\n\n            if value == b\"\":", "            root_node = self._load_root()\n\n            if value == b\"\":")])
+V("eq-extract-consumed-prefix", "C07", HX, "    def _raise_missing_node(self, exception, key):", "    def _raise_missing_node(self, exception, key):", expect="silent", props=["C07", "C08", "C01"],
+  edits=[(HX, "    def _traverse_extension(self, node, trie_key):", "    @staticmethod\n    def _consumed(whole, rest):\n        return whole[: len(whole) - len(rest)]\n\n    def _traverse_extension(self, node, trie_key):"),
+         (HX, "                used_key = trie_key[: len(trie_key) - len(remaining_key)]\n\n                raise MissingTraversalNode", "                used_key = self._consumed(trie_key, remaining_key)\n\n                raise MissingTraversalNode")])
+V("eq-extract-bit-helper", "C14", SM, "def calc_root(key: bytes, value: bytes, branch: Sequence[Hash32]) -> Hash32:", "def calc_root(key: bytes, value: bytes, branch: Sequence[Hash32]) -> Hash32:", expect="silent", props=["C14", "C15"],
+  edits=[(SM, "def calc_root(key: bytes, value: bytes, branch: Sequence[Hash32]) -> Hash32:", "def _is_right(path, target_bit):\n    return path & target_bit\n\n\ndef calc_root(key: bytes, value: bytes, branch: Sequence[Hash32]) -> Hash32:"),
+         (SM, "        if path & target_bit:\n            node_hash = keccak(sibling_node + node_hash)", "        if _is_right(path, target_bit):\n            node_hash = keccak(sibling_node + node_hash)")])
+V("c11-tie-goes-left", "C11", FG, "            if left_distance < right_distance:\n                return nearest_left", "            if left_distance <= right_distance:\n                return nearest_left", rule="PROV1b")
+V("c11-distance-args-swapped", "C11", FG, "            left_distance = self._prefix_distance(nearest_left, key)", "            left_distance = self._prefix_distance(key, nearest_left)", rule="PROV1b")
+V("c11-distance-fill-swapped", "C11", FG, "            if low_nibble is None:\n                final_low_nibble = 15", "            if low_nibble is None:\n                final_low_nibble = 0", rule="PROV1b")
+V("c11-right-ignores-cover", "C11", FG, "            if key_starts_with(key, nearest_left):\n                return nearest_left\n            else:", "            if key_starts_with(nearest_left, key):\n                return nearest_left\n            else:", rule="PROV1b")
+V("eq-nearest-unknown-flipped", "C11", FG, "            if left_distance < right_distance:\n                return nearest_left\n            else:\n                return nearest_right", "            if right_distance <= left_distance:\n                return nearest_right\n            return nearest_left", expect="silent")
+V("c17-copy-merge-order", "C17", DB, "        combined = merge(self.wrapped_db, self.cache)", "        combined = merge(self.cache, self.wrapped_db)", rule="COPY")
+V("c17-copy-keeps-deleted", "C17", DB, "        return valfilter(lambda val: val is not DELETED, combined)", "        return valfilter(lambda val: val is not None, combined)", rule="COPY")
+V("c12-leaf-longer-key-accepted", "C12", BN, "            if keypath:\n                raise NodeOverrideError(\n                    \"Fail to set the value because the prefix of it's key\"\n                    \" is the same as existing key\"\n                )\n            if if_delete_subtrie:", "            if keypath and value:\n                raise NodeOverrideError(\n                    \"Fail to set the value because the prefix of it's key\"\n                    \" is the same as existing key\"\n                )\n            if if_delete_subtrie:", rule="SETTAB")
+V("c12-handler-args-swapped", "C12", BN, "            return self._set_branch_node(\n                keypath, nodetype, left_child, right_child, value, if_delete_subtrie\n            )", "            return self._set_branch_node(\n                keypath, nodetype, right_child, left_child, value, if_delete_subtrie\n            )", rule="SETTAB")
+V("c14-depth-wrong", "C14", SM, "        self.depth = key_size * 8  # depth is number of bits in the key", "        self.depth = key_size * 4  # depth is number of bits in the key", rule="SMTINIT")
+V("c14-init-from-blank", "C14", SM, "        node = self._default  # Default leaf node", "        node = BLANK_NODE  # Default leaf node", rule="SMTINIT")
